@@ -395,7 +395,41 @@ def run(ctx):
                 ctx.check(bool(acc) and all(o.store.get(("ROWS", (index,) + F("prf_row", "set"))) == INT(1) for o in acc),
                           "R13.4", inst, padd.loc(), "a valid row is refused or not marked as set")
     pclose = prog.fn("prf_close", "src/emu/pv/prf.c")
-    ex = absint.Explorer(prog, effects=eff, loop_bound=6)
+
+    # the text written to the file is accumulated in the abstract store, whichever stdio routine writes it
+    def _piece(st, v):
+        if v[0] == "str":
+            return v[1]
+        if v[0] == "int":
+            return str(v[1])
+        if v[0] == "ptr":
+            path = v[2][:-1] if v[2] and v[2][-1] == 0 else v[2]
+            sv = st.store.get((v[1], path))
+            if sv is not None and sv[0] == "str":
+                return sv[1]
+            return "<%s%s>" % (v[1], "".join("[%s]" % (p_ if isinstance(p_, int) else p_[1]) for p_ in path))
+        return "<?>"
+
+    def _emit(st, text):
+        cur = st.store.get(("OUT", ()), ("str", ""))[1]
+        return {("OUT", ()): ("str", cur + text)}
+
+    def s_fprintf(ex_, st, a, f, e):
+        if len(a) < 2 or a[1][0] != "str":
+            return [(INT(1), _emit(st, "<?>"))]
+        import re as _re
+        args_ = list(a[2:])
+        def sub(m):
+            if m.group(0) == "%%":
+                return "%"
+            return _piece(st, args_.pop(0)) if args_ else "<?>"
+        return [(INT(1), _emit(st, _re.sub(r"%%|%[-0-9.]*l*[sdiu]", sub, a[1][1])))]
+    out_sums = {"fprintf": s_fprintf, "__fprintf_chk": lambda ex_, st, a, f, e: s_fprintf(ex_, st, [a[0]] + list(a[2:]), f, e),
+                "fputs": lambda ex_, st, a, f, e: [(INT(1), _emit(st, _piece(st, a[0])))],
+                "fputc": lambda ex_, st, a, f, e: [(a[0], _emit(st, chr(a[0][1]) if a[0][0] == "int" else "<?>"))],
+                "putc": lambda ex_, st, a, f, e: [(a[0], _emit(st, chr(a[0][1]) if a[0][0] == "int" else "<?>"))],
+                "fclose": lambda ex_, st, a, f, e: [(INT(0), {})]}
+    ex = absint.Explorer(prog, effects=eff, loop_bound=6, summaries=out_sums)
     for sets in ((1, 1, 1), (1, 0, 1), (0, 1, 1), (1, 1, 0)):
         store = {("PRF", F("prf", "nrows")): INT(3), ("PRF", F("prf", "rows")): PTR("ROWS", (0,)),
                  ("PRF", F("prf", "f")): PTR("FILE")}
@@ -408,13 +442,22 @@ def run(ctx):
             ctx.check(not acc, "R13.4", inst, pclose.loc(), "the .row file is written although a row has no name")
         else:
             good = bool(acc)
+            texts = set()
             for o in acc:
-                pr = [ev[2] for ev in o.events if ev[0] == "call" and ev[1] == "fprintf"]
-                size_ok = any(a[1][0] == "str" and "SIZE %ld" in a[1][1] and len(a) > 2 and a[2] == INT(3) for a in pr)
-                names = [a for a in pr if a[1] == ("str", "%s\n")]
-                good = good and size_ok and len(names) == 3
+                text = o.store.get(("OUT", ()), ("str", ""))[1]
+                texts.add(text)
+                lines = text.split("\n")
+                try:
+                    k_ = lines.index("LEVEL THREAD SIZE 3")
+                except ValueError:
+                    good = False
+                    continue
+                want_lines = ["<ROWS[%d][label]>" % r_ for r_ in range(3)]
+                if lines[k_ + 1:k_ + 4] != want_lines or [l_ for l_ in lines[k_ + 4:] if l_.strip()]:
+                    good = False
             ctx.check(good, "R13.4", inst, pclose.loc(),
-                      "prf_close does not print the declared row count followed by exactly that many names")
+                      "prf_close does not print the declared row count followed by exactly that many names, one per "
+                      "line and in row order (it writes %s)" % sorted(texts))
     for o in sorted(declared_rows):
         if o in ("cpu", "thread"):
             continue
